@@ -1112,3 +1112,83 @@ fn c10_range_dispatch_bytes() {
     assert!(unsafe { POS_FN } == 2);
     assert!(matches!(&*r, Ok(Val::BStr(b)) if &b[..] == b"\xc3\xa4"));
 }
+
+// ------------------------------------------------------------------------------------------
+// C08 / C10: a few `Val`-level facts at concrete points (the arms that do not reach index maps,
+// string searchers or big-integer division execute concretely in seconds)
+// ------------------------------------------------------------------------------------------
+fn val_stream(v: &Val) -> Rec {
+    let mut h = Rec::new();
+    v.hash(&mut h);
+    h
+}
+/// a text string and a byte string with equal bytes are equal, ordered Equal and hash alike
+/// ("interchangeable as object keys"); different bytes order bytewise in both directions
+#[kani::proof]
+#[kani::unwind(26)]
+fn c08_val_text_bytes_points() {
+    let t = MD::new(Val::utf8_str(Vec::from(*b"a")));
+    let b = MD::new(Val::byte_str(Vec::from(*b"a")));
+    assert!(*t == *b && *b == *t);
+    assert!((*t).cmp(&*b) == Equal && (*b).cmp(&*t) == Equal);
+    assert!(val_stream(&t) == val_stream(&b));
+    let c = MD::new(Val::byte_str(Vec::from(*b"b")));
+    assert!((*t).cmp(&*c) == Less && (*c).cmp(&*t) == Greater && *t != *c);
+}
+/// the documented kind sequence null < false < true < numbers < strings < arrays on one
+/// representative per kind (49 ordered pairs), with `==` holding only on the diagonal
+#[kani::proof]
+#[kani::unwind(26)]
+fn c08_val_kind_order_points() {
+    let vs = [
+        MD::new(Val::Null),
+        MD::new(Val::Bool(false)),
+        MD::new(Val::Bool(true)),
+        MD::new(Val::Num(Num::Int(-5))),
+        MD::new(Val::Num(Num::Float(f64::INFINITY))),
+        MD::new(Val::utf8_str(Vec::new())),
+        MD::new(Val::Arr(Rc::new(Vec::new()))),
+    ];
+    let mut i = 0;
+    while i < 7 {
+        let mut j = 0;
+        while j < 7 {
+            assert!((*vs[i]).cmp(&*vs[j]) == i.cmp(&j));
+            assert!((*vs[i] == *vs[j]) == (i == j));
+            j += 1;
+        }
+        i += 1;
+    }
+}
+/// `bytes_splice(b, skip, take, r)` leaves `old[..skip] ++ r ++ old[skip + take..]` - growing,
+/// shrinking, inserting and deleting - for every (skip, take) inside a 4-byte buffer and every
+/// replacement length 0..=3 (enumerated concretely; symbolic positions exceed 400 s).
+/// Precondition `skip + take <= len` is what `skip_take*` guarantee (O-C10-skiptake, -chars*).
+#[kani::proof]
+#[kani::unwind(8)]
+fn c10_bytes_splice_enum() {
+    let content = *b"abcd";
+    let rep = *b"XYZ";
+    let mut skip = 0;
+    while skip <= 4 {
+        let mut take = 0;
+        while take <= 4 - skip {
+            let mut rn = 0;
+            while rn <= 3 {
+                let mut b = BytesMut::from(&content[..]);
+                bytes_splice(&mut b, skip, take, &rep[..rn]);
+                assert!(b.len() == 4 - take + rn);
+                let mut i = 0;
+                while i < b.len() {
+                    let want = if i < skip { content[i] } else if i < skip + rn { rep[i - skip] } else { content[i - rn + take] };
+                    assert!(b[i] == want);
+                    i += 1;
+                }
+                core::mem::forget(b);
+                rn += 1;
+            }
+            take += 1;
+        }
+        skip += 1;
+    }
+}
